@@ -204,6 +204,22 @@ KNOWN_WITNESSES = {
 }
 
 
+# more than 100 macros (the tables are kept in sets of 100), an #undef in the first set, an #undef + new #define of a
+# macro of a later set, conditions on that macro, on its neighbours and on a macro of the first set
+def _many(n, first, later, newval):
+    src = ''.join('#define CFG%d 1\n' % i for i in range(n)) + '#undef CFG%d\n#undef CFG%d\n#define CFG%d %d\n' % (first, later, later, newval)
+    exp = ''
+    for m in (later, later - 1, later + 1 if later + 1 < n else 0, 7, first):
+        src += '#if CFG%d\nchar y%d;\n#else\nchar n%d;\n#endif\n' % (m, m, m) if m != first else '#ifdef CFG%d\nchar y%d;\n#else\nchar n%d;\n#endif\n' % (m, m, m)
+        val = newval if m == later else (None if m == first else 1)
+        exp += ('char y%d;\n' % m) if val else ('char n%d;\n' % m)
+    return (src, [], exp)
+
+
+for _n, _f, _l, _v in ((120, 5, 110, 0), (120, 5, 100, 0), (201, 99, 200, 0), (250, 0, 199, 0), (120, 5, 110, 2), (101, 50, 100, 0), (120, 110, 5, 0)):
+    KNOWN_WITNESSES['many_macros_%d_%d_%d_%d' % (_n, _f, _l, _v)] = _many(_n, _f, _l, _v)
+
+
 def run(ctx):
     quick = ctx.tier == 'quick'
     rng = ctx.rng
